@@ -195,6 +195,8 @@ def evaluate(ctx, node, case):
     v = P.operand(case["seed"], shape, P.code_of(ref.dtype), "normal")
     if v.ndim == 2 and v.shape[1] > 1:
         v = v * np.array([1e-6, 1.0, 1e6][:v.shape[1]]).astype(v.dtype)  # very different column norms
+        if case["seed"] % 4 == 0:
+            v[:, 1] = 0  # a zero column: f(A) 0 = 0 (even where f(0) is infinite)
     vw = R._wide(v)
     want = F @ vw
     got = ctx.call(lambda: Fop @ v)
@@ -211,6 +213,10 @@ def evaluate(ctx, node, case):
     if is_err(got):
         out.append(("action", False, {"error": repr(got)}))
         return out
+    if v.ndim == 2 and v.shape[1] > 1 and case["seed"] % 4 == 0:
+        g = np.asarray(got)
+        out.append(("zero-column-maps-to-zero", bool(g.shape == want.shape and np.all(np.isfinite(g)) and np.all(g[:, 1] == 0)),
+                    {"column": np.asarray(g)[:, 1] if g.ndim == 2 else None}))
     e = colerr(got, want, vw)
     out.append(("action", bool(e <= scale), {"rel_err_vs_|v|": e, "bound": scale, "condV": condV, "fmax": fmax, "n": n}))
     # algebraic consequences named in the property
